@@ -15,6 +15,10 @@ directions: writer Layout/FileBytes, total reader Read, declarative ValidDoc).
      and prints each case with the expected outcome and value of every call.  vh-datafile calls
      every accessor of map::Reader and every item struct and compares; MapTrace.tla judges the
      recorded calls (no panic/hang, every index handed out in range).
+ (U) DfBuffer.tla: every short history of add_item / add_data on datafile::buffer::Buffer (the
+     crate's in-memory builder; there is no file writer): results, every accessor, and the
+     content laid out as Datafile!Layout says is read back by the real readers (deviations of the
+     Buffer itself are DRIFT: C16 is about the readers).
  (B) vh-datafile drive: seeded real-size files written with the repository's zlib compressor,
      truncation at every position, field fuzz, corrupt/oversized compressed blocks, random
      bytes; DatafileTrace.tla validates the recorded trace (alphabet {ok(content), error(kind)}).
@@ -224,6 +228,58 @@ def _judge_map_mismatch(ctx, cls, m, case, n, label):
     else:
         ctx.report_drift("map %s(%s) after corruption %s: Map.tla says %s, the reader %s (%s) [%d cases]" % (
             f, m.get("a"), sw, json.dumps(m.get("exp"))[:80], json.dumps(m.get("act"))[:80], what, n))
+
+
+# ---------------------------------------------------------------------------------------- (U)
+
+def _run_U(ctx, bins, scratch, cfg, timeout, result):
+    """datafile::buffer::Buffer: every history of DfBuffer.tla replayed on the real Buffer."""
+    try:
+        tres, rc, out = core.tlc_pipe("DfBufferCases.tla", cfg, [bins + "/vh-datafile", "buffer-replay", os.path.join(scratch, "u")],
+                                      cwd=CWD, workers=2, timeout=timeout, env=_jenv(ctx))
+        result["U"] = (rc, out, tres.wall_s)
+    except Exception as e:  # noqa: BLE001
+        result["U"] = e
+
+
+def _judge_U(ctx, rc, out, wall, cfg):
+    objs = _json_lines(out)
+    tres = _tlc_result_from_tail(objs, "DfBuffer " + cfg)
+    tres.wall_s = wall
+    ctx.add_states(tres, "DfBuffer %s: buffer histories, writer form + round trip through Layout/Read in every state" % cfg)
+    if tres.violated or tres.error:
+        ctx.report("spec-law:DfBuffer", "TLC reports %s in DfBuffer: %s" % (tres.violated or "an error", (tres.error or "")[:400]),
+                   {"kind": "spec", "tail": tres.out[-3000:]})
+    if rc == 97:
+        ctx.report_drift("datafile::buffer::Buffer: a call did not return within 20 s (outside the text of C16)")
+        return
+    if rc != 0:
+        raise core.ToolError("buffer replay died (exit %s): %s" % (rc, out[-500:]))
+    summ = None
+    for o in objs:
+        if o.get("kind") == "summary":
+            summ = o
+        elif o.get("kind") == "bad-line":
+            raise core.ToolError("buffer replay: unparsable case line from TLC")
+        elif o.get("kind") == "buffer-finding":
+            g = o["group"]
+            first = o["first"]
+            if g.startswith("readback-"):
+                # a well-formed file (the buffer's content laid out as Datafile!Layout says) not read back
+                ctx.report("wf-not-read-back:buffer:%s" % g.replace("|", ":"),
+                           "the content of a Buffer, laid out by the independent writer, is not read back as stored (%s) [%d cases]" % (g, o["n"]),
+                           {"kind": "buffer", "case": first["case"]})
+            else:
+                # Buffer is not a reader: nothing in the text of C16 covers it
+                ctx.report_drift("datafile::buffer::Buffer deviates from DfBuffer.tla: %s (history %s) [%d cases]" % (
+                    g, json.dumps(first["case"].get("ops"))[:300], o["n"]))
+    if summ is None:
+        raise core.ToolError("buffer replay: no summary")
+    if not summ["cases"] or not summ["refused_calls"]:
+        raise core.ToolError("vacuous buffer enumeration: %s" % summ)
+    ctx.add_run("buffer replay", cases=summ["cases"], refused_calls=summ["refused_calls"],
+                files_read_back=summ["files_read_back"], findings=summ["findings"], wall_s=round(wall, 1))
+    return summ
 
 
 def _validate_chunks(ctx, module, trace, what, max_rounds=6, timeout=900):
@@ -453,6 +509,8 @@ def _run(ctx, bins, scratch, quick):
         threads.append(threading.Thread(target=_run_A, args=(ctx, bins, scratch, cfg, workers, to, label, results)))
     threads.append(threading.Thread(target=_run_M, args=(
         ctx, bins, scratch, "Map_quick.cfg" if quick else "Map_thorough.cfg", 900 if quick else 2400, results)))
+    threads.append(threading.Thread(target=_run_U, args=(
+        ctx, bins, scratch, "Buf_quick.cfg" if quick else "Buf_thorough.cfg", 900 if quick else 2400, results)))
     if not quick and os.environ.get("C16_NO_MIRI", "") == "":
         threads.append(threading.Thread(target=_run_miri, args=(ctx, scratch, results)))
     if not quick:
@@ -578,6 +636,10 @@ def _run(ctx, bins, scratch, quick):
     ctx.coverage["cases_by_corrupted_field"] = fams
     ctx.coverage["cases_by_spec_verdict"] = verds
 
+    # ---- (U)
+    rc, out, wall = results["U"]
+    usum = _judge_U(ctx, rc, out, wall, "Buf_quick.cfg" if quick else "Buf_thorough.cfg")
+
     # ---- (M)
     rc, out, mtrace, wall = results["M"]
     objs = _json_lines(out)
@@ -634,7 +696,7 @@ def _run(ctx, bins, scratch, quick):
         ctx.add_run("random driver", events=len(b_events), seed=ctx.seed,
                     distinct_files=(b_summary or {}).get("distinct_files"))
     cov = ctx.coverage
-    cov["evaluations"] = total_cases + len(b_events) + map_cases
+    cov["evaluations"] = total_cases + len(b_events) + map_cases + (usum or {}).get("cases", 0)
     cov["distinct_nontrivial"] = distinct + (b_summary or {}).get("distinct_files", 0) + \
         (msum or {}).get("distinct_outcome_shapes", 0)
     cov["rule"] = ("(A) every state of DatafileMC's graph = one file: all small abstract datafiles of the configuration "
@@ -663,6 +725,17 @@ def replay(ctx, path):
     try:
         obj = json.load(open(path))
         case = obj.get("replay", obj)
+        if case.get("kind") == "buffer":
+            rc, out = core.run_harness([bins + "/vh-datafile", "buffer-replay", scratch], stdin=json.dumps(case["case"]) + "\n",
+                                       timeout=300)
+            for o in _json_lines(out):
+                if o.get("kind") == "buffer-finding" and o["group"].startswith("readback-"):
+                    ctx.report("wf-not-read-back:buffer:%s" % o["group"].replace("|", ":"),
+                               "the content of a Buffer, laid out by the independent writer, is not read back as stored", case)
+            ctx.coverage["states"] = max(ctx.coverage["states"], 1)
+            ctx.coverage["transitions"] = max(ctx.coverage["transitions"], 1)
+            ctx.sample({"replayed": path})
+            return
         rc, out = core.run_harness([bins + "/vh-datafile", "replay-one", scratch, path], timeout=300)
         objs = _json_lines(out)
         if rc == 97:
